@@ -400,7 +400,9 @@ def ascii_cut(ctx, lexpr):
                         if _leads_to_panic(gg, t["otherwise"]):
                             handled = {v for v, _ in t["targets"]}
             if handled is None:
-                r.anchor_missing("%s: match on the stop byte with an unreachable!() default" % fname)
+                # no arm of a byte match in the scanner (or the workers it delegates to) ends in a panic: there is no
+                # `unreachable!()` whose reachability would have to be argued
+                r.ok("%s: no match on the stop byte has a panicking default" % fname, g)
             elif stop <= handled:
                 r.ok("%s: arms %s cover the stop class, unreachable!() is unreachable" % (fname, lex.fmt_bytes(handled)), g)
             else:
